@@ -530,6 +530,13 @@ fn fs_scenarios(ctx: &mut Ctx, funcs: &BTreeMap<String, Arc<Function>>, cfg: &Cf
     let mut cases: Vec<(&str, Vec<Variable>, bool, Check)> = vec![
         ("fs.file_read_to_string", vec![sv(&p("file.txt"))], true, Box::new(|_r, v| (canon(v) != "\"hello\"").then(|| format!("content read as {}", canon(v))))),
         ("fs.file_read_to_string", vec![sv(&p("missing.txt"))], false, none()),
+        // files whose size as reported by the file system is not the number of bytes a read delivers (procfs reports 0,
+        // sysfs a page): the documented result is the contents the operating system delivers
+        ("fs.file_read_to_string", vec![sv("/proc/version")], true, Box::new(|_r, v| { let want = std::fs::read_to_string("/proc/version").unwrap_or_default(); (canon(v) != canon(&Variable::String(Arc::from(want.as_str())))).then(|| format!("/proc/version read as {}", truncate(&canon(v), 80))) })),
+        ("fs.file_read_to_string", vec![sv("/proc/sys/kernel/ostype")], true, Box::new(|_r, v| { let want = std::fs::read_to_string("/proc/sys/kernel/ostype").unwrap_or_default(); (canon(v) != canon(&Variable::String(Arc::from(want.as_str())))).then(|| format!("/proc/sys/kernel/ostype read as {}", truncate(&canon(v), 80))) })),
+        ("fs.file_read_to_string", vec![sv("/proc/self/comm")], true, Box::new(|_r, v| { let want = std::fs::read_to_string("/proc/self/comm").unwrap_or_default(); (canon(v) != canon(&Variable::String(Arc::from(want.as_str())))).then(|| format!("/proc/self/comm read as {}", truncate(&canon(v), 80))) })),
+        ("fs.file_read_to_string", vec![sv("/sys/kernel/mm/transparent_hugepage/enabled")], std::fs::read_to_string("/sys/kernel/mm/transparent_hugepage/enabled").is_ok(), Box::new(|_r, v| { match std::fs::read_to_string("/sys/kernel/mm/transparent_hugepage/enabled") { Ok(want) => (canon(v) != canon(&Variable::String(Arc::from(want.as_str())))).then(|| format!("sysfs attribute read as {}", truncate(&canon(v), 80))), Err(_) => None } })),
+        ("fs.copy_file", vec![sv("/proc/version"), sv(&p("version_copy.txt"))], true, Box::new(|r, _| (std::fs::read(r.join("version_copy.txt")).ok() != std::fs::read("/proc/version").ok()).then(|| "the copy of /proc/version differs from what a read of it delivers".to_string()))),
         ("fs.file_read_to_string", vec![sv(&p("dir_empty"))], false, none()),
         ("fs.file_read_to_string", vec![sv(&p("bin.dat"))], false, none()),
         ("fs.file_read_to_string", vec![sv(&p("file.txt/under_file"))], false, none()),
